@@ -66,6 +66,17 @@ def gen_last_drop(rng):
     return cases
 
 
+def gen_flushes():
+    """flush() on a handle in every queue state: idle, worker busy with metrics queued behind, full queue, after a
+    clone, between releases - it flushes the wrapped sink and must leave the queue alone"""
+    cases = []
+    for cap in ["0", "1", "2", "3", "u"]:
+        for ctor in ("1", "3"):
+            cases.append("Q %s %s F0,E0,F0,E0,E0,F0,S,Rk,F0,S,Rk,Rk,F0,S,D0" % (cap, ctor))
+            cases.append("Q %s %s E0,E0,C0,E1,F1,S,Re8,F0,Rp,F1,S,Rk,Rk,D0,F1,D1" % (cap, ctor))
+    return cases
+
+
 def gen_payloads():
     """every payload shape (empty string, 100 kB, non-ASCII with newlines, bare number) through every capacity, on the
     original handle and on a clone, sampled before and after delivery"""
@@ -110,7 +121,7 @@ def gen_random(rng, n, maxlen):
         for _ in range(rng.randint(3, maxlen)):
             opts = []
             if live:
-                opts += ["E"] * 5 + ["S"] + ["D"] + (["C"] if total < 5 else [])
+                opts += ["E"] * 5 + ["S"] + ["D"] + ["F"] + (["C"] if total < 5 else [])
             if rels < emits:
                 opts += ["R"] * 4
             if not opts:
@@ -135,6 +146,8 @@ def gen_random(rng, n, maxlen):
                 seq.append(("U%d" if rng.random() < 0.3 else "D%d") % h)
             elif o == "S":
                 seq.append("S")
+            elif o == "F":
+                seq.append("F%d" % rng.choice(live))
             else:
                 rels += 1
                 seq.append(rng.choice(["Rk", "Rk", "Re%d" % rng.choice([rels, 8, 20, 5]), "Rp"]))
@@ -307,6 +320,9 @@ def judge(case, obs):
                     bad.append(("C08", "action %d: emit returned Ok with a wrong length" % i))
             if r0.startswith("k"):
                 accepted += 1
+        elif a[0] == "F":
+            if r0 != "l":
+                bad.append(("C10", "action %d: flush() on a handle returned an error although the wrapped sink's flush succeeds" % i))
         elif a[0] == "C":
             live.append(total)
             total += 1
@@ -387,6 +403,7 @@ def run_queue_check(prop, tier, seed):
     cases += gen_last_drop(rng)
     cases += gen_patterns(rng)
     cases += gen_payloads()
+    cases += gen_flushes()
     cases += gen_random(rng, 60000 if thorough else 400, 40)
     soak = gen_soak(rng, 300 if thorough else 12, thorough)
     sched = gen_schedules(8 if thorough else 6, [1, 2, None], rng, 30000 if thorough else 300, 30)
